@@ -10,12 +10,27 @@ correspondence the REAL `Calculator._calculate_compliances` and `CijVolumeBaseIn
                (`c07.run`: own Gauss-Jordan inverse; `c07.report`: the implementation's compliances handed over as S).
 oracle         independent of both: full 3x3x3x3 tensors built here with this file's own Voigt map, contractions
                by numpy.einsum, CODATA constants typed in below.
+glue streams   (what the translator tie of the Calculator / interface glue, Generated/CalcGlueSpec.lean, shows is worth testing)
+               * key lists in structured non-sorted orders (c12 before c11, c44 first, reversed, off-diagonal first): the order of first
+                 appearance of the Voigt indices differs from 1..6;
+               * stubs that are REAL `Calculator` instances (`object.__new__`, no `__init__`): class-level attributes, the real `dims`
+                 property and the real `modulus_keys` LazyProperty take part;
+               * `orders`: every reported quantity read several times in several orders on one object, each read compared with a
+                 FRESH object;
+               * `pairs`: two calculators alive at once, compliances computed for both, then read alternately; the statement is evaluated
+                 on what each one reports in that history;
+               * `lookup`: every spelling `REGEX_CIJ` accepts (2 / 4 digits, `_`, suffix s/t, swapped indices, trailing newline) and
+                 near misses, through the real `__getattr__` with identity-tagged arrays, against the extracted pattern / dispatch run by
+                 the driver (`c07.lookup`) and against this file's own hand parser;
+               * `real`: two real `Calculator(settings)` on synthetic data sets alive at once (same file names, different data), read
+                 alternately, statement evaluated on both.
 """
 from __future__ import annotations
 
 import hashlib
 import itertools
 import json
+import os
 import types
 
 import numpy
@@ -29,10 +44,20 @@ ASSUMPTIONS = [
     "regression: inputs whose inverse has an entry exactly 0 (s12 = 0) or of Pa-like magnitude are replayed on every run "
     "(before repo commit 1b22ce6 an allclose(.,0) filter dropped such compliances and the Reuss moduli raised AttributeError); "
     "a return of that behaviour is reported with site Calculator._calculate_compliances:allclose-filter-drops-needed-compliance",
+    "the name-lookup model covers names that REACH __getattr__ (no class attribute / instance attribute of that name); Python's `$` also "
+    "matches before one trailing newline: modelled, and exercised by the lookup stream",
+    "`s11t` (compliance with suffix t) is served from the adiabatic compliances: the source's test `res.group(1) == 't'` can never hold; "
+    "modelled as the code is (theorem calc_glue_is_source_lookup_dispatch), the harness's own oracle abstains on s-names with suffix t",
+    "a second Calculator that cannot be CONSTRUCTED while another exists, although a fresh interpreter processes the same data set, is "
+    "reported as 'not reported for a positive-definite stiffness' (site history:two-real-calculators)",
 ]
 TRUSTED_EXTRA = [
     "stub calculator object (SimpleNamespace with modulus_adiabatic, modulus_keys, dims, qha_calculator.volume_base.{v_array,t_array}, "
-    "elast_data.cellmass): the real methods/properties are executed on it, nothing of them is re-implemented",
+    "elast_data.cellmass; or a real Calculator instance created without __init__ carrying the same attributes, with the real `dims` and "
+    "`modulus_keys`): the real methods/properties are executed on it, nothing of them is re-implemented",
+    "tools/gens/calc_src.py (translator plug-in, ~750 lines: REGEX_CIJ parts, __getattr__ dispatch, index data of _calculate_compliances, "
+    "__init__ order and attribute reads/writes, class-level / module-level state, decorators and in-place operations of every method of "
+    "cij/core/calculator.py -> Generated/CalcGlueSpec.lean); its alias analysis for in-place operations is syntactic and conservative",
 ]
 
 # ---- oracle's own constants (CODATA 2018, typed in; NOT read from the code under test) -------------------------
@@ -90,7 +115,30 @@ def _random_pattern_matrix(rng, pairs, scale, system):
     return _symmetrise(system, M)
 
 
-def make_case(rng, system=None, nt=None, nv=None, scale=None, unstable=False):
+KEY_ORDERS = ("random", "random", "sorted", "reversed", "c12-first", "c44-first", "offdiag-first")
+
+
+def order_keys(rng, pairs, mode):
+    """the order in which `modulus_keys` lists the components (= column order of the static table)"""
+    pairs = list(pairs)
+    if mode == "sorted": return sorted(pairs)
+    if mode == "reversed": return sorted(pairs)[::-1]
+    if mode == "c12-first": return [(1, 2)] + [p for p in sorted(pairs) if p != (1, 2)]
+    if mode == "c44-first": return [p for p in sorted(pairs) if p[0] >= 4] + [p for p in sorted(pairs) if p[0] < 4]
+    if mode == "offdiag-first": return [p for p in sorted(pairs) if p[0] != p[1]][::-1] + [p for p in sorted(pairs) if p[0] == p[1]]
+    return [pairs[i] for i in rng.permutation(len(pairs))]
+
+
+def first_appearance(keys):
+    """Voigt indices in order of first appearance in the key list"""
+    out = []
+    for k in keys:
+        for v in k:
+            if v not in out: out.append(int(v))
+    return out
+
+
+def make_case(rng, system=None, nt=None, nv=None, scale=None, unstable=False, key_order=None, stub=None):
     systems = list(EXTRA) + ["random"] * 4
     system = system or systems[int(rng.integers(len(systems)))]
     if system == "random":
@@ -119,8 +167,8 @@ def make_case(rng, system=None, nt=None, nv=None, scale=None, unstable=False):
         if ok: break
     else:
         raise RuntimeError("generator could not produce an SPD field")
-    order = list(rng.permutation(len(pairs)))
-    keys = [pairs[i] for i in order]
+    key_order = key_order or KEY_ORDERS[int(rng.integers(len(KEY_ORDERS)))]
+    keys = order_keys(rng, pairs, key_order)
     fields = [C[:, :, i - 1, j - 1].copy() for (i, j) in keys]
     v0 = float(rng.uniform(250.0, 900.0))
     v_array = v0 * numpy.linspace(1.05, 0.85, nv) if nv > 1 else numpy.array([v0])
@@ -137,14 +185,18 @@ def make_case(rng, system=None, nt=None, nv=None, scale=None, unstable=False):
     read_order = [int(i) for i in rng.permutation(9)]
     case = {"kind": "spd", "system": system, "keys": [list(k) for k in keys], "fields": [f.tolist() for f in fields],
             "nt": nt, "nv": nv, "v": v_array.tolist(), "t": numpy.linspace(0.0, 300.0 * max(nt - 1, 1), nt).tolist(),
-            "cellmass": float(rng.uniform(20.0, 600.0)), "pre_reads": pre, "read_order": read_order}
+            "cellmass": float(rng.uniform(20.0, 600.0)), "pre_reads": pre, "read_order": read_order, "key_order": key_order,
+            "stub": stub or ("instance" if rng.random() < 0.5 else "namespace")}
     if unstable and nt * nv >= 2:
         # one grid point with a shear instability (c44 < 0 there: indefinite but invertible), as at the hot / expanded corner of a
         # real (T,V) grid; the statement speaks about the positive-definite points, which must not be affected by that corner
         t0, v0 = int(rng.integers(nt)), int(rng.integers(nv))
         k44 = [tuple(k) for k in keys].index((4, 4))
-        f = numpy.array(case["fields"][k44]); f[t0, v0] = -abs(f[t0, v0]); case["fields"][k44] = f.tolist()
-        case["unstable_points"] = [[t0, v0]]
+        # depth of the instability: c44 -> -w |c44|; for small w the Reuss sum itself turns negative there (G_R < 0), for w = 1 only
+        # G_R > G_V
+        w = float([1.0, 0.3, 0.1, 0.03][int(rng.integers(4))])
+        f = numpy.array(case["fields"][k44]); f[t0, v0] = -w * abs(f[t0, v0]); case["fields"][k44] = f.tolist()
+        case["unstable_points"] = [[t0, v0]]; case["unstable_depth"] = w
     return case
 
 
@@ -183,37 +235,68 @@ def _consts():
     return float(scipy.constants.physical_constants["Avogadro constant"][0]), float(ry)
 
 
-def run_impl(case):
-    """drive the real classes on a stub; every reported quantity or 'error'"""
-    from cij.core.calculator import Calculator, CijVolumeBaseInterface
+QUANT = (("kV", "bulk_modulus_voigt"), ("kR", "bulk_modulus_reuss"), ("kH", "bulk_modulus_voigt_reuss_hill"),
+         ("gV", "shear_modulus_voigt"), ("gR", "shear_modulus_reuss"), ("gH", "shear_modulus_voigt_reuss_hill"),
+         ("mass", "mass"), ("vp", "primary_velocities"), ("vs", "secondary_velocities"))
+
+
+def make_stub(case):
+    """the object the real methods run on.  kind "namespace": a SimpleNamespace carrying exactly the attributes they read;
+    kind "instance": a real `Calculator` object made without `__init__` — class-level attributes of `Calculator`, its `dims` property
+    and its `modulus_keys` LazyProperty (over `elast_data.volumes[0].static_elastic_modulus`) are the real ones."""
+    from cij.core.calculator import Calculator
     from cij.util import c_
     keys = [c_(int(i), int(j)) for i, j in case["keys"]]
     fields = [numpy.array(f, dtype=float) for f in case["fields"]]
-    stub = types.SimpleNamespace()
-    stub.modulus_keys = keys
+    t_array, v_array = numpy.array(case["t"], dtype=float), numpy.array(case["v"], dtype=float)
+    vbq = types.SimpleNamespace(v_array=v_array, t_array=t_array)
+    if case.get("stub") == "instance":
+        stub = object.__new__(Calculator)
+        stub.qha_calculator = types.SimpleNamespace(volume_base=vbq, t_array=t_array, v_array=v_array)
+        stub.elast_data = types.SimpleNamespace(cellmass=float(case["cellmass"]),
+                                                volumes=[types.SimpleNamespace(static_elastic_modulus={k: None for k in keys})])
+    else:
+        stub = types.SimpleNamespace()
+        stub.modulus_keys = keys
+        stub.dims = (case["nt"], case["nv"])
+        stub.qha_calculator = types.SimpleNamespace(volume_base=vbq)
+        stub.elast_data = types.SimpleNamespace(cellmass=float(case["cellmass"]))
     stub.modulus_adiabatic = dict(zip(keys, fields))
     # isothermal tensor: distinct numbers (adiabatic minus 7 %), so that a mix-up of the two is visible
     stub.modulus_isothermal = {k: 0.93 * f for k, f in zip(keys, fields)}
-    stub.dims = (case["nt"], case["nv"])
-    stub.qha_calculator = types.SimpleNamespace(volume_base=types.SimpleNamespace(
-        v_array=numpy.array(case["v"], dtype=float), t_array=numpy.array(case["t"], dtype=float)))
-    stub.elast_data = types.SimpleNamespace(cellmass=float(case["cellmass"]))
-    out = {}
+    return stub, keys, fields
+
+
+def compute_compliances(stub, out):
+    from cij.core.calculator import Calculator
     try:
         Calculator._calculate_compliances(stub)
         out["compl"] = {tuple(int(x) for x in k.v): numpy.array(v, dtype=float) for k, v in stub._compliances.items()}
     except Exception as e:
         out["compl"] = "error"; out["compl_exc"] = f"{type(e).__name__}: {e}"
-        stub._compliances = {}
+        try:
+            stub._compliances = {}
+        except Exception:
+            pass
+
+
+def read_quantity(vb, attr):
+    with numpy.errstate(all="ignore"):
+        return numpy.array(getattr(vb, attr), dtype=float)        # a copy: later reads cannot change it
+
+
+def run_impl(case):
+    """drive the real classes on a stub; every reported quantity or 'error'"""
+    from cij.core.calculator import CijVolumeBaseInterface
+    stub, keys, fields = make_stub(case)
+    out = {}
+    compute_compliances(stub, out)
     vb = CijVolumeBaseInterface(stub)
     for name in case.get("pre_reads", []):
         try:
             getattr(vb, name)
         except Exception:
             pass
-    QUANT = (("kV", "bulk_modulus_voigt"), ("kR", "bulk_modulus_reuss"), ("kH", "bulk_modulus_voigt_reuss_hill"),
-             ("gV", "shear_modulus_voigt"), ("gR", "shear_modulus_reuss"), ("gH", "shear_modulus_voigt_reuss_hill"),
-             ("mass", "mass"), ("vp", "primary_velocities"), ("vs", "secondary_velocities"))
     for idx in case.get("read_order", range(9)):
         name, attr = QUANT[idx]
         try:
@@ -274,8 +357,9 @@ def decode_model(m):
     for n in ("kV", "kR", "kH", "gV", "gR", "gH", "vp", "vs"):
         out[n] = "error" if m[n] == "error" else dec_arr(m[n])
     out["mass"] = numpy.array(b2f(m["mass"]))
-    for n in ("C", "S", "C_iijj", "C_ijij", "S_iijj", "S_ijij"):
+    for n in ("C", "S", "C_iijj", "C_ijij", "S_iijj", "S_ijij", "C_spec"):
         out[n] = dec_arr(m[n])
+    out["compl_spec"] = {tuple(k): dec_arr(f) for k, f in zip(m["compl_spec_keys"], m["compl_spec"])}
     return out
 
 
@@ -434,7 +518,8 @@ def site_of(clause):
 
 
 def replay_payload(case):
-    return {k: case[k] for k in ("kind", "system", "keys", "fields", "nt", "nv", "v", "t", "cellmass", "pd", "pre_reads") if k in case}
+    return {k: case[k] for k in ("kind", "system", "keys", "fields", "nt", "nv", "v", "t", "cellmass", "pd", "pre_reads", "read_order", "stub",
+                                 "key_order", "unstable_points") if k in case}
 
 
 def evaluate(ctx, cases, consts, res, with_model=True):
@@ -462,6 +547,11 @@ def evaluate(ctx, cases, consts, res, with_model=True):
             C4, S4, C6, S6 = full_tensors(c, compl)
             if not numpy.array_equal(mo["C"], C6):
                 notes.append("assembled 6x6: model differs from symmetric fill")
+            # the assembly and labelling loops evaluated from the index data extracted from the source on this run
+            if not numpy.array_equal(mo["C_spec"], C6):
+                notes.append("assembled 6x6 evaluated from the extracted index data differs from the symmetric fill")
+            if set(mo["compl_spec"]) != set(mo["compl"]) or any(not numpy.array_equal(mo["compl_spec"][k], mo["compl"][k], equal_nan=True) for k in mo["compl"]):
+                notes.append("compliance labels evaluated from the extracted index data differ from the model's dictionary")
             for nm, arr in (("C_iijj", numpy.einsum("tviijj->tv", C4)), ("C_ijij", numpy.einsum("tvijij->tv", C4))):
                 r = _cmp("spec " + nm, arr, mo[nm], 1e-12)
                 if r: notes.append(r)
@@ -495,6 +585,361 @@ def evaluate(ctx, cases, consts, res, with_model=True):
     return impls
 
 
+# ------------------------------------------------------------------------------------------------ glue streams
+def _same(a, b):
+    """(identical bits, equal to rounding: 1e-12 of the scale)"""
+    if isinstance(a, str) or isinstance(b, str):
+        return (a == b if isinstance(a, str) and isinstance(b, str) else False,) * 2
+    if a.shape != b.shape: return False, False
+    bits = bool(numpy.array_equal(a, b, equal_nan=True))
+    if bits: return True, True
+    fin = numpy.isfinite(a) & numpy.isfinite(b)
+    if not numpy.array_equal(numpy.isfinite(a), numpy.isfinite(b)): return False, False
+    sc = float(numpy.max(numpy.abs(a[fin]))) if fin.any() else 0.0
+    return False, bool(numpy.all(numpy.abs(a[fin] - b[fin]) <= 1e-12 * sc))
+
+
+def fresh_values(case):
+    """every quantity read ONCE on a fresh stub and a fresh interface object"""
+    from cij.core.calculator import CijVolumeBaseInterface
+    out = {}
+    for name, attr in QUANT:
+        stub, _, _ = make_stub(case)
+        compute_compliances(stub, {})
+        try:
+            out[name] = read_quantity(CijVolumeBaseInterface(stub), attr)
+        except Exception as e:
+            out[name] = "error:" + type(e).__name__
+    return out
+
+
+def orders_failures(case, sequence):
+    """read the quantities in the order `sequence` (indices into QUANT, repetitions allowed) on ONE object; every read must return what a
+    fresh object returns"""
+    from cij.core.calculator import CijVolumeBaseInterface
+    ref = fresh_values(case)
+    stub, _, _ = make_stub(case)
+    compute_compliances(stub, {})
+    vb = CijVolumeBaseInterface(stub)
+    bad, bit_only = [], 0
+    for pos, idx in enumerate(sequence):
+        name, attr = QUANT[idx]
+        try:
+            got = read_quantity(vb, attr)
+        except Exception as e:
+            got = "error:" + type(e).__name__
+        bits, close = _same(got, ref[name])
+        if not close: bad.append({"position": pos, "quantity": name})
+        elif not bits: bit_only += 1
+    return bad, bit_only
+
+
+def orders_stream(ctx, rng, res, cases, n_seq):
+    fails = []
+    stats = {"cases": 0, "sequences": 0, "reads": 0, "bit_differences_within_rounding": 0}
+    for c in cases:
+        if not c.get("pd", True): continue
+        stats["cases"] += 1
+        for _ in range(n_seq):
+            L = int(rng.integers(9, 22))
+            seq = [int(i) for i in rng.integers(0, 9, size=L)]
+            # a Reuss value both before and after the Hill mean / a velocity, in both orders, at least once per sequence
+            seq += [[1, 2, 1], [2, 1, 2], [4, 8, 4], [7, 1, 4], [5, 4, 5]][int(rng.integers(5))]
+            bad, bit_only = orders_failures(c, seq)
+            stats["sequences"] += 1; stats["reads"] += len(seq); stats["bit_differences_within_rounding"] += bit_only
+            res.evaluations += 1
+            if bad:
+                fails.append(OracleFailure(
+                    what=f"a reported quantity depends on what was read before ({c['kind']}/{c.get('system', '')}): {bad[:3]}",
+                    input=dict(replay_payload(c), kind="orders", sequence=seq), observed=bad[:6],
+                    expected="every read equals the value a fresh object reports", site="history:read-order"))
+                break
+    res.distribution["orders_stream"] = stats
+    return fails
+
+
+def pair_failures(a, b, consts):
+    """two calculators alive at once: compliances for A, then for B, interfaces for both, quantities read alternately.  The statement
+    is evaluated on what EACH reports in this history."""
+    from cij.core.calculator import CijVolumeBaseInterface
+    sa, _, _ = make_stub(a); sb, _, _ = make_stub(b)
+    ia, ib = {}, {}
+    compute_compliances(sa, ia); compute_compliances(sb, ib)
+    # what each calculator holds NOW (after the other one was built)
+    for st, out in ((sa, ia), (sb, ib)):
+        try:
+            out["compl"] = {tuple(int(x) for x in k.v): numpy.array(v, dtype=float) for k, v in st._compliances.items()}
+        except Exception as e:
+            out["compl"] = "error"; out["compl_exc"] = f"{type(e).__name__}: {e}"
+    va, vb = CijVolumeBaseInterface(sa), CijVolumeBaseInterface(sb)
+    for name, attr in QUANT:
+        for vbx, out in ((va, ia), (vb, ib)):
+            try:
+                out[name] = read_quantity(vbx, attr)
+            except Exception as e:
+                out[name] = "error"; out[name + "_exc"] = f"{type(e).__name__}: {e}"
+    fails = []
+    for which, c, im in (("first", a, ia), ("second", b, ib)):
+        im["changed_on_reread"] = []
+        for clause, obs, exp in oracle(c, im, consts):
+            fails.append((which, clause, obs, exp))
+    return fails
+
+
+def pairs_stream(ctx, rng, res, cases, consts, n_pairs):
+    fails = []
+    pd = [c for c in cases if c.get("pd", True) and c["kind"] == "spd"]
+    stats = {"pairs": 0, "same_key_set": 0, "same_grid": 0}
+    for _ in range(min(n_pairs, len(pd) // 2)):
+        i, j = (int(x) for x in rng.choice(len(pd), size=2, replace=False))
+        a, b = dict(pd[i], stub="instance"), dict(pd[j], stub="instance")
+        stats["pairs"] += 1
+        stats["same_key_set"] += int(sorted(map(tuple, a["keys"])) == sorted(map(tuple, b["keys"])))
+        stats["same_grid"] += int((a["nt"], a["nv"]) == (b["nt"], b["nv"]))
+        res.evaluations += 1
+        pf = pair_failures(a, b, consts)
+        if pf:
+            which, clause, obs, exp = pf[0]
+            fails.append(OracleFailure(
+                what=f"two calculators alive at once: {clause} fails for the {which} one",
+                input={"kind": "pair", "pair": [replay_payload(a), replay_payload(b)]}, observed=obs, expected=exp,
+                site="history:two-calculators"))
+            break
+    res.distribution["pairs_stream"] = stats
+    return fails
+
+
+# ---- attribute lookups ---------------------------------------------------------------------------------------------------------
+OWN_VOIGT = {(1, 1): 1, (2, 2): 2, (3, 3): 3, (2, 3): 4, (3, 2): 4, (1, 3): 5, (3, 1): 5, (1, 2): 6, (2, 1): 6}
+
+
+def own_parse(name):
+    """the documented spellings, parsed by hand (no `re`, no cij): prefix c|s, optional `_`, two Voigt digits 1-6 or four standard digits
+    1-3, optional suffix s|t  ->  (prefix, canonical Voigt pair, suffix) or None"""
+    if len(name) < 3 or name[0] not in "cs": return None
+    rest = name[1:]
+    if rest.startswith("_"): rest = rest[1:]
+    suf = ""
+    if rest and rest[-1] in "st": suf, rest = rest[-1], rest[:-1]
+    if len(rest) == 2 and all(ch in "123456" for ch in rest):
+        p, q = int(rest[0]), int(rest[1])
+    elif len(rest) == 4 and all(ch in "123" for ch in rest):
+        p, q = OWN_VOIGT[(int(rest[0]), int(rest[1]))], OWN_VOIGT[(int(rest[2]), int(rest[3]))]
+    else:
+        return None
+    return name[0], (min(p, q), max(p, q)), suf
+
+
+def lookup_names(rng, keys, n):
+    std = {1: "11", 2: "22", 3: "33", 4: "23", 5: "13", 6: "12"}
+    std_alt = {1: "11", 2: "22", 3: "33", 4: "32", 5: "31", 6: "21"}
+    names = []
+    for _ in range(n):
+        r = rng.random()
+        i, j = (int(x) for x in rng.integers(1, 7, size=2)) if r < 0.5 else keys[int(rng.integers(len(keys)))]
+        if rng.random() < 0.3: i, j = j, i
+        form = int(rng.integers(4))
+        body = [f"{i}{j}", f"_{i}{j}", (std if rng.random() < 0.5 else std_alt)[i] + (std if rng.random() < 0.5 else std_alt)[j],
+                "_" + std[i] + std_alt[j]][form]
+        name = "cs"[int(rng.integers(2))] + body + ["", "", "s", "t"][int(rng.integers(4))]
+        m = rng.random()
+        if m < 0.06: name += "\n"
+        elif m < 0.30:          # near misses
+            k = int(rng.integers(12))
+            name = [name + "x", name[:-1], "C" + name[1:], name + "\n\n", name.replace("1", "7", 1), "x" + name, name[0] + "__" + name[1:].lstrip("_"),
+                    name + "st", name[0] + name[1:].replace("_", "-"), name + " ", name[0], name[0] + "1" + name[1:]][k]
+        names.append(name)
+    return names
+
+
+def lookup_stream(ctx, rng, res, n_objects, n_names):
+    """the real `__getattr__` on identity-tagged dictionaries against (a) the extracted pattern / dispatch run by the driver, (b) the own parser"""
+    from cij.core.calculator import CijVolumeBaseInterface
+    from cij.util import c_
+    fails = []
+    stats = {"objects": 0, "names": 0, "accepted_by_own_parser": 0, "served": 0, "attribute_error": 0, "other_error": 0,
+             "four_digit": 0, "underscore": 0, "suffix_t": 0, "suffix_s": 0, "trailing_newline": 0, "s_prefix": 0,
+             "key_not_in_modulus_keys": 0}
+    all21 = [(i, j) for i in range(1, 7) for j in range(i, 7)]
+    for _ in range(n_objects):
+        k = int(rng.integers(3, 22))
+        dict_keys = [all21[i] for i in rng.permutation(21)[:k]]
+        # modulus_keys may list fewer keys than the dictionaries hold: membership is tested in modulus_keys
+        mk = [p for p in dict_keys if rng.random() < 0.8] or dict_keys[:1]
+        compl_keys = all21 if rng.random() < 0.8 else [p for p in all21 if rng.random() < 0.7]
+        stub = types.SimpleNamespace()
+        tag = {}
+        def arr(store, p):
+            a = numpy.array([float(len(tag))]); tag[id(a)] = (store, p); return a
+        stub.modulus_keys = [c_(*p) for p in mk]
+        stub.modulus_adiabatic = {c_(*p): arr("modulus_adiabatic", p) for p in dict_keys}
+        stub.modulus_isothermal = {c_(*p): arr("modulus_isothermal", p) for p in dict_keys}
+        stub._compliances = {c_(*p): arr("_compliances", p) for p in compl_keys}
+        keep = [stub.modulus_adiabatic, stub.modulus_isothermal, stub._compliances]      # ids stay unique while these live
+        vb = CijVolumeBaseInterface(stub)
+        names = lookup_names(rng, dict_keys, n_names)
+        impl = []
+        for nm in names:
+            try:
+                got = getattr(vb, nm)
+                impl.append(list(tag[id(got)]) if id(got) in tag else "untagged-object")
+            except AttributeError:
+                impl.append("AttributeError")
+            except Exception as e:
+                impl.append("error")
+        mod = ctx.driver.ask([{"op": "c07.lookup", "keys": [list(p) for p in mk], "dict_keys": [list(p) for p in dict_keys],
+                               "compl_keys": [list(p) for p in compl_keys], "names": names}])[0]
+        stats["objects"] += 1
+        payload = {"kind": "lookup", "modulus_keys": [list(p) for p in mk], "dict_keys": [list(p) for p in dict_keys],
+                   "compl_keys": [list(p) for p in compl_keys]}
+        notes = []
+        for nm, im, mo in zip(names, impl, mod):
+            res.evaluations += 1; stats["names"] += 1
+            mo_c = [mo[0], tuple(mo[1])] if isinstance(mo, list) else mo
+            im_c = [im[0], tuple(im[1])] if isinstance(im, list) else im
+            if im_c != mo_c: notes.append(f"{nm!r}: impl={im_c} model={mo_c}")
+            stats["served" if isinstance(im, list) else ("attribute_error" if im == "AttributeError" else "other_error")] += 1
+            stats["trailing_newline"] += int(nm.endswith("\n"))
+            op = own_parse(nm)
+            if op is None: continue
+            pre, key, suf = op
+            stats["accepted_by_own_parser"] += 1
+            body = nm[1:].lstrip("_").rstrip("st")
+            stats["four_digit"] += int(len(body) == 4); stats["underscore"] += int("_" in nm)
+            stats["suffix_t"] += int(suf == "t"); stats["suffix_s"] += int(suf == "s"); stats["s_prefix"] += int(pre == "s")
+            exp = None
+            if pre == "c":
+                if key in mk: exp = ["modulus_isothermal" if suf == "t" else "modulus_adiabatic", key]
+                else: stats["key_not_in_modulus_keys"] += 1
+            elif suf != "t" and key in compl_keys:
+                exp = ["_compliances", key]
+            if exp is not None and im_c != exp:
+                fails.append(OracleFailure(
+                    what=f"attribute {nm!r} is served from {im_c} instead of {exp}",
+                    input=dict(payload, names=[nm]), observed=jsonable(im), expected=jsonable(exp), site="lookup:wrong-store-or-key"))
+        if notes:
+            res.disagreements.append(Disagreement("c07.lookup", dict(payload, names=names[:40]), impl[:40], mod[:40], "; ".join(notes[:6])))
+        else:
+            res.traces_validated += 1
+        if fails: break
+    res.distribution["lookup_stream"] = stats
+    return fails
+
+
+def lookup_replay(payload):
+    from cij.core.calculator import CijVolumeBaseInterface
+    from cij.util import c_
+    mk = [tuple(p) for p in payload["modulus_keys"]]; dk = [tuple(p) for p in payload["dict_keys"]]; ck = [tuple(p) for p in payload["compl_keys"]]
+    stub = types.SimpleNamespace()
+    tag = {}
+    def arr(store, p):
+        a = numpy.array([float(len(tag))]); tag[id(a)] = (store, p); return a
+    stub.modulus_keys = [c_(*p) for p in mk]
+    stub.modulus_adiabatic = {c_(*p): arr("modulus_adiabatic", p) for p in dk}
+    stub.modulus_isothermal = {c_(*p): arr("modulus_isothermal", p) for p in dk}
+    stub._compliances = {c_(*p): arr("_compliances", p) for p in ck}
+    vb = CijVolumeBaseInterface(stub)
+    out = []
+    for nm in payload["names"]:
+        op = own_parse(nm)
+        if op is None: continue
+        pre, key, suf = op
+        exp = None
+        if pre == "c" and key in mk: exp = ["modulus_isothermal" if suf == "t" else "modulus_adiabatic", key]
+        elif pre == "s" and suf != "t" and key in ck: exp = ["_compliances", key]
+        if exp is None: continue
+        try:
+            got = getattr(vb, nm); im = [tag[id(got)][0], tag[id(got)][1]] if id(got) in tag else "untagged-object"
+        except Exception as e:
+            im = type(e).__name__
+        if im != exp:
+            out.append(OracleFailure(what=f"attribute {nm!r} is served from {im} instead of {exp}", input=payload, observed=jsonable(im),
+                                     expected=jsonable(exp), site="lookup:wrong-store-or-key"))
+    return out
+
+
+# ---- two real Calculators alive at once ----------------------------------------------------------------------------------------
+def case_from_calculator(calc, kind):
+    keys = [tuple(int(x) for x in k.v) for k in calc.modulus_keys]
+    nt, nv = calc.dims
+    return {"kind": kind, "system": "real", "keys": [list(k) for k in keys],
+            "fields": [numpy.array(calc.modulus_adiabatic[k], dtype=float).tolist() for k in calc.modulus_keys], "nt": int(nt), "nv": int(nv),
+            "v": numpy.array(calc.volume_base.v_array, dtype=float).tolist(), "t": numpy.array(calc.volume_base.t_array, dtype=float).tolist(),
+            "cellmass": float(calc.elast_data.cellmass), "pd": True}
+
+
+def real_pair_failures(seed, index, consts, stats=None):
+    """two synthetic data sets (same file names and grid settings, different numbers, possibly different crystal systems) -> two real
+    `Calculator` objects alive at once, read alternately; the statement on what each reports"""
+    import cij.core.calculator as cc
+    from harness import synth, e2e
+    from harness.common import make_rng
+    rng = make_rng(seed, f"C07-real-{index}")
+    systems = ["cubic", "hexagonal", "orthorhombic", "tetragonal6", "trigonal6", "monoclinic"]
+    # same file names, same grid settings; the numbers differ, and (every other pair) the number of atoms / q-points as well
+    shapes = [(2, 2), (2, 2)] if index % 2 == 0 else [(2, 2), (3, 3)]
+    dss = [synth.make_dataset(rng, nv=int(rng.integers(6, 9)), nq=nq, na=na, system=systems[int(rng.integers(len(systems)))]) for nq, na in shapes]
+    fails = []
+    with e2e.scratch_dir() as d, e2e.quiet():
+        paths = [synth.write_all(os.path.join(d, f"run{n}"), ds) for n, ds in enumerate(dss)]
+        calcs = []
+        for n, path in enumerate(paths):
+            try:
+                calcs.append(cc.Calculator(path))
+            except Exception as e:
+                # is the data set processed when it is ALONE (a fresh interpreter: nothing of this process can interfere)?
+                import subprocess, sys
+                repo = os.environ.get("CIJ_REPO", "/repo")
+                code = f"import sys; sys.path.insert(0, {repo!r}); import cij.core.calculator as cc; cc.Calculator({path!r})"
+                alone = subprocess.run([sys.executable, "-c", code], stdout=subprocess.DEVNULL, stderr=subprocess.DEVNULL, timeout=600).returncode == 0
+                if not alone:
+                    if stats is not None: stats["skipped_not_constructible_alone"] = stats.get("skipped_not_constructible_alone", 0) + 1
+                    return []
+                return [(n, "not-reported", {"exception while other Calculator objects exist / existed in the process": f"{type(e).__name__}: {e}"[:300]},
+                         "a data set that is processed in a fresh interpreter is processed as well after / next to another Calculator")]
+        impls = [{}, {}]
+        for im, calc in zip(impls, calcs):
+            im["compl"] = {tuple(int(x) for x in k.v): numpy.array(v, dtype=float) for k, v in calc._compliances.items()}
+        for name, attr in QUANT:
+            for im, calc in zip(impls, calcs):
+                try:
+                    im[name] = read_quantity(calc.volume_base, attr)
+                except Exception as e:
+                    im[name] = "error"; im[name + "_exc"] = f"{type(e).__name__}: {e}"
+        for n, (im, calc) in enumerate(zip(impls, calcs)):
+            again = []
+            for name, attr in QUANT:
+                if isinstance(im[name], str): continue
+                if not numpy.array_equal(read_quantity(calc.volume_base, attr), im[name], equal_nan=True): again.append(name)
+            im["changed_on_reread"] = again
+            c = case_from_calculator(calc, f"real:{dss[n].settings['elast']['settings'].get('symmetry', {}).get('system')}")
+            if stats is not None:
+                stats["calculators"] = stats.get("calculators", 0) + 1
+                stats.setdefault("systems", {}); stats["systems"][c["kind"]] = stats["systems"].get(c["kind"], 0) + 1
+                stats.setdefault("n_keys", {}); stats["n_keys"][str(len(c["keys"]))] = stats["n_keys"].get(str(len(c["keys"])), 0) + 1
+            for clause, obs, exp in oracle(c, im, consts):
+                fails.append((n, clause, obs, exp))
+    return fails
+
+
+def real_stream(ctx, res, consts, n_pairs):
+    stats = {"pairs": 0}
+    fails = []
+    for index in range(n_pairs):
+        if ctx.time_left() < 120: break
+        stats["pairs"] += 1
+        res.evaluations += 1
+        rf = real_pair_failures(ctx.seed, index, consts, stats)
+        if rf:
+            n, clause, obs, exp = rf[0]
+            fails.append(OracleFailure(what=f"two real Calculators alive at once: {clause} fails for calculator {n}",
+                                       input={"kind": "real-pair", "seed": ctx.seed, "index": index}, observed=obs, expected=exp,
+                                       site="history:two-real-calculators"))
+            break
+    res.distribution["real_stream"] = stats
+    return fails
+
+
 def case_hash(c):
     return hashlib.sha256(json.dumps([c["keys"], c["fields"], c["v"], c["cellmass"]], sort_keys=True).encode()).hexdigest()
 
@@ -506,6 +951,11 @@ def check_constants(consts, res):
     if abs(ry - RY_KG_KM2_S2) > 1e-9 * RY_KG_KM2_S2:
         res.contract_failures.append(f"pint rydberg->kg km^2/s^2 {ry!r} != CODATA Ry[J]*1e-6 {RY_KG_KM2_S2!r}")
     res.extra["constants"] = {"avogadro_used": na, "ry_factor_used": ry, "ry_factor_codata": RY_KG_KM2_S2}
+
+
+def make_rng_for(ctx, stream):
+    from harness.common import make_rng
+    return make_rng(ctx.seed, f"C07/{ctx.tier}/{stream}")
 
 
 def run(ctx: Ctx) -> Result:
@@ -534,14 +984,30 @@ def run(ctx: Ctx) -> Result:
         evaluate(ctx, cases[i:i + B], consts, res)
         if ctx.time_left() < 60: break
     evaluate(ctx, edges, consts, res)
+    # glue streams
+    th = ctx.thorough()
+    glue = make_rng_for(ctx, "glue")
+    sub = [c for c in cases if c["kind"] == "spd"]
+    pick = [sub[int(i)] for i in glue.choice(len(sub), size=min(len(sub), 120 if th else 30), replace=False)] if sub else []
+    res.oracle_failures.extend(orders_stream(ctx, glue, res, pick, 4 if th else 2))
+    res.oracle_failures.extend(pairs_stream(ctx, glue, res, sub, consts, 150 if th else 40))
+    res.oracle_failures.extend(lookup_stream(ctx, glue, res, 60 if th else 12, 120 if th else 60))
+    res.oracle_failures.extend(real_stream(ctx, res, consts, 6 if th else 2))
     allc = cases + edges
     res.distinct_nontrivial = len({case_hash(c) for c in allc if c["kind"] == "spd" and len(c["keys"]) >= 9})
     res.rule = ("a case = one stiffness field on a (T,V) grid + key order + volumes + cell mass; SPD cases are generated per crystal-system "
                 "sparsity pattern or a random superset of the nine orthotropic keys, min eigenvalue >= 0.04 max eigenvalue at every grid point; "
                 "non-trivial = SPD case with >= 9 keys (every one has non-zero off-diagonal couplings); distinct = distinct sha256 of "
                 "(keys, fields, volumes, mass)")
-    dist = {"by_system": {}, "by_grid": {}, "n_keys": {}, "edge_kinds": [e["kind"] for e in edges], "magnitude_decades": {}}
+    dist = dict(res.distribution)
+    dist.update({"by_system": {}, "by_grid": {}, "n_keys": {}, "edge_kinds": [e["kind"] for e in edges], "magnitude_decades": {},
+                 "key_order": {}, "stub_kind": {}, "voigt_first_appearance_not_1_to_6": 0, "unstable_depth": {}})
     for c in cases:
+        ko = c.get("key_order", "corpus"); dist["key_order"][ko] = dist["key_order"].get(ko, 0) + 1
+        sk = c.get("stub", "namespace"); dist["stub_kind"][sk] = dist["stub_kind"].get(sk, 0) + 1
+        if "unstable_depth" in c:
+            ud = str(c["unstable_depth"]); dist["unstable_depth"][ud] = dist["unstable_depth"].get(ud, 0) + 1
+        dist["voigt_first_appearance_not_1_to_6"] += int(first_appearance(c["keys"]) != sorted(first_appearance(c["keys"])))
         dist["by_system"][c.get("system", "?")] = dist["by_system"].get(c.get("system", "?"), 0) + 1
         g = f"{c['nt']}x{c['nv']}"; dist["by_grid"][g] = dist["by_grid"].get(g, 0) + 1
         nk = str(len(c["keys"])); dist["n_keys"][nk] = dist["n_keys"].get(nk, 0) + 1
@@ -577,11 +1043,45 @@ def search(ctx: Ctx, res: Result):
                 pass
         evaluate(ctx, cases, consts, out, with_model=False)
         if out.oracle_failures or ctx.time_left() < 30: break
+        spd = [c for c in cases if c["kind"] == "spd"]
+        out.oracle_failures.extend(orders_stream(ctx, rng, out, spd[:40], 3))
+        out.oracle_failures.extend(pairs_stream(ctx, rng, out, spd, consts, 60))
+        try:
+            out.oracle_failures.extend(lookup_stream(ctx, rng, out, 20, 120))
+        except Exception:
+            pass                                   # the driver may be unavailable when the model no longer builds
+        if out.oracle_failures or ctx.time_left() < 60: break
+        if k <= 2:
+            st = {}
+            for index in range(100 * k, 100 * k + 2):
+                rf = real_pair_failures(ctx.seed, index, consts, st)
+                if rf:
+                    n, clause, obs, exp = rf[0]
+                    out.oracle_failures.append(OracleFailure(what=f"two real Calculators alive at once: {clause} fails for calculator {n}",
+                                                             input={"kind": "real-pair", "seed": ctx.seed, "index": index}, observed=obs,
+                                                             expected=exp, site="history:two-real-calculators"))
+                    break
+        if out.oracle_failures: break
     return out.oracle_failures
 
 
 def replay(ctx: Ctx, payload):
     consts = _consts()
+    kind = payload.get("kind")
+    if kind == "lookup":
+        return lookup_replay(payload)
+    if kind == "pair":
+        a, b = payload["pair"]
+        return [OracleFailure(what=f"two calculators alive at once: {cl} fails for the {which} one", input=payload, observed=o, expected=e,
+                              site="history:two-calculators") for which, cl, o, e in pair_failures(dict(a), dict(b), consts)]
+    if kind == "real-pair":
+        return [OracleFailure(what=f"two real Calculators alive at once: {cl} fails for calculator {n}", input=payload, observed=o, expected=e,
+                              site="history:two-real-calculators") for n, cl, o, e in real_pair_failures(payload["seed"], payload["index"], consts)]
+    if kind == "orders":
+        case = dict(payload, kind="spd")
+        bad, _ = orders_failures(case, payload["sequence"])
+        return [OracleFailure(what="a reported quantity depends on what was read before", input=payload, observed=bad[:6],
+                              expected="every read equals the value a fresh object reports", site="history:read-order")] if bad else []
     case = dict(payload)
     im = run_impl(case)
     return [OracleFailure(what=f"{cl} fails", input=payload, observed=o, expected=e, site=site_of(cl))
